@@ -24,11 +24,50 @@ const nativeAPITemplate = `package %s
 import (
 	"encoding/json"
 	"fmt"
+	"math/rand"
 	"os"
 	"runtime"
 	"strconv"
 	"time"
 )
+
+// random mode (oracle validation): every input is drawn from a PRNG instead of a solver model
+var verifRand *rand.Rand
+var verifDrawn []string
+
+func verifRandInt(name string, bits int) uint64 {
+	var v int64
+	switch verifRand.Intn(20) {
+	case 0, 1, 2, 3, 4, 5, 6, 7, 8, 9, 10, 11, 12, 13:
+		v = int64(verifRand.Intn(7)) - 1
+	case 14, 15:
+		v = int64(verifRand.Intn(9)) - 2
+	case 16:
+		v = int64(verifRand.Intn(40)) - 8
+	case 17:
+		edge := []int64{-1 << 63, -1<<63 + 1, 1<<63 - 1, 1<<63 - 2, 1 << 31, -1 << 31, 1 << 32, 1<<40 + 1, -(1 << 40), 255, 256, 511, 512, 513}
+		v = edge[verifRand.Intn(len(edge))]
+	default:
+		v = int64(verifRand.Uint64())
+	}
+	if bits < 64 {
+		v &= (1 << uint(bits)) - 1
+	}
+	verifDrawn = append(verifDrawn, name+"="+strconv.FormatInt(v, 10))
+	return uint64(v)
+}
+
+func verifIn(name string, bits int) uint64 {
+	if verifRand != nil {
+		if v, ok := verifM.Model[name]; ok { // same name, same value within a run
+			return v
+		}
+		v := verifRandInt(name, bits)
+		verifM.Model[name] = v
+		return v
+	}
+	return verifM.Model[name]
+}
 
 type verifModelT struct {
 	Model   map[string]uint64
@@ -39,7 +78,7 @@ type verifModelT struct {
 	Params map[string]int64
 }
 
-type verifStop struct{}
+type verifStop struct{ label string }
 type verifAssumeViolated struct{}
 
 var verifM verifModelT
@@ -55,20 +94,25 @@ func verifLoad() {
 	}
 }
 
-func verifInt64(name string) int64   { return int64(verifM.Model[name]) }
-func verifInt(name string) int       { return int(int64(verifM.Model[name])) }
-func verifUint32(name string) uint32 { return uint32(verifM.Model[name]) }
-func verifByte(name string) byte     { return byte(verifM.Model[name]) }
-func verifBool(name string) bool     { return verifM.Model[name] != 0 }
+func verifInt64(name string) int64   { return int64(verifIn(name, 64)) }
+func verifInt(name string) int       { return int(int64(verifIn(name, 64))) }
+func verifUint32(name string) uint32 { return uint32(verifIn(name, 32)) }
+func verifByte(name string) byte     { return byte(verifIn(name, 8)) }
+func verifBool(name string) bool     { return verifIn(name, 1)&1 != 0 }
 func verifBytes(name string, n int) []byte {
 	b := make([]byte, n)
 	for i := range b {
-		b[i] = byte(verifM.Model[name+"["+strconv.Itoa(i)+"]"])
+		b[i] = byte(verifIn(name+"["+strconv.Itoa(i)+"]", 8))
 	}
 	return b
 }
 func verifString(name string, n int) string { return string(verifBytes(name, n)) }
 func verifChoice(name string, n int) int {
+	if verifRand != nil {
+		c := verifRand.Intn(n)
+		verifDrawn = append(verifDrawn, name+":="+strconv.Itoa(c))
+		return c
+	}
 	if verifChoicePos >= len(verifM.Choices) {
 		panic("verifChoice: replay file has no more choices (wanted " + name + ")")
 	}
@@ -94,9 +138,50 @@ func verifAssume(c bool) {
 }
 func verifAssert(c bool, label string) {
 	if !c {
-		fmt.Println("VERIF-FAIL: " + label)
-		panic(verifStop{})
+		if verifRand == nil {
+			fmt.Println("VERIF-FAIL: " + label)
+		}
+		panic(verifStop{label})
 	}
+}
+
+// verifFuzzEntry runs a harness n times with random inputs (oracle validation against a reference
+// implementation selected by the harness through verifParam).
+func verifFuzzEntry(entry string, n int, seed int64) {
+	verifLoad()
+	f, ok := verifEntries[entry]
+	if !ok {
+		panic("unknown harness entry " + entry)
+	}
+	params := verifM.Params
+	verifRand = rand.New(rand.NewSource(seed))
+	valid, rejected, fails := 0, 0, 0
+	failLabels := map[string]int{}
+	for i := 0; i < n; i++ {
+		verifM = verifModelT{Model: map[string]uint64{}, Params: params}
+		verifDrawn = nil
+		func() {
+			defer func() {
+				switch r := recover().(type) {
+				case nil:
+					valid++
+				case verifStop:
+					fails++
+					failLabels[r.label]++
+					if failLabels[r.label] <= 2 {
+						fmt.Printf("VERIF-FUZZ-FAIL: %%s inputs=%%v\n", r.label, verifDrawn)
+					}
+				case verifAssumeViolated:
+					rejected++
+				default:
+					fails++
+					fmt.Printf("VERIF-FUZZ-PANIC: %%v inputs=%%v\n", r, verifDrawn)
+				}
+			}()
+			f()
+		}()
+	}
+	fmt.Printf("VERIF-FUZZ: runs=%%d valid=%%d rejected=%%d fails=%%d\n", n, valid, rejected, fails)
 }
 func verifReach(label string)            {}
 func verifTag(k, v string)               {}
@@ -142,11 +227,18 @@ const nativeTestTemplate = `package %s
 
 import (
 	"os"
+	"strconv"
 	"testing"
 )
 
 func TestVerifReplay(t *testing.T) {
 	verifRunEntry(os.Getenv("VERIF_ENTRY"))
+}
+
+func TestVerifFuzz(t *testing.T) {
+	n, _ := strconv.Atoi(os.Getenv("VERIF_FUZZ_N"))
+	seed, _ := strconv.ParseInt(os.Getenv("VERIF_SEED"), 10, 64)
+	verifFuzzEntry(os.Getenv("VERIF_ENTRY"), n, seed)
 }
 `
 
@@ -334,9 +426,6 @@ func reproduces(f *Failure, r *NativeRun) (bool, string) {
 		if len(r.Fails) > 0 && r.Fails[0] == f.Label {
 			return true, "native assertion failed: " + f.Label
 		}
-		if len(r.Fails) > 0 {
-			return false, "native run failed a different assertion first: " + r.Fails[0]
-		}
 	case "panic":
 		if r.Panic != "" {
 			return true, "native panic: " + r.Panic
@@ -353,6 +442,17 @@ func reproduces(f *Failure, r *NativeRun) (bool, string) {
 		if r.Hang || strings.Contains(r.Output, "stack exceeds") || strings.Contains(r.Output, "test timed out") {
 			return true, "native run does not terminate (hang or stack overflow)"
 		}
+	}
+	// the native run failed, but not in the way the engine predicted (e.g. Go's real map iteration
+	// order differs from the modelled one): it still shows a violation on the real build
+	if len(r.Fails) > 0 {
+		return true, "native run violates the property at a different assertion: " + r.Fails[0]
+	}
+	if r.Panic != "" && r.End != "assume-violated" {
+		return true, "native run panics: " + r.Panic
+	}
+	if r.Hang && r.End == "" {
+		return true, "native run hangs"
 	}
 	why := "native run: end=" + r.End
 	if r.Panic != "" {
